@@ -14,14 +14,15 @@ from ..checkers import C03Checker, C04Checker, C07Checker, C08Checker, _rng_stat
 from ..common import Tally, Violation, shard_seed
 from ..digest import tree_diff, tree_digest
 from ..driver import hyp_drive
-from ..harness import Run
+from ..harness import Checker, Run
 from ..runprop import labels_of
 from ..scenario import scenario_summary, scenarios
 
 PROP = "C19"
 RULE = (
     "case = generated complete configuration (objective handed over as callable object, lambda or closure; all engines incl. "
-    "live CMA-ES objects, LHS/Sobol samplers, SHADE memory, finished local demes; hibernation on/off) x snapshot point k drawn "
+    "live CMA-ES objects, LHS/Sobol samplers, SHADE memory, finished local demes; hibernation on/off; one objective family is "
+    "undefined (NaN) on part of the box) x snapshot point k drawn "
     "from 0..cap; the run is driven step by step, at boundary k pickle_dump/pickle_load are called: the live tree's digest, "
     "summary() and both global RNG states must be unchanged by the dump, the loaded tree must have the same digest, summary, flags, "
     "counters and GSC verdict; then, from the same global RNG state, both the live and the loaded tree are run to the end with the "
@@ -54,6 +55,7 @@ def _attach(sc, tree, checkers):
     shell.crash = None
     shell.boundaries = 0
     shell.ended = False
+    shell.timed_out = False
     shell.gsc = tree._gsc
     shell.trace = tree._gsc.trace
     shell.trace.listeners = checkers
@@ -64,6 +66,8 @@ def _attach(sc, tree, checkers):
 
 
 def _monitors(sc):
+    if sc["objective"]["family"] == "nanhole":
+        return [C07Checker(sc), C08Checker(sc)]  # accounting / best-so-far monitors assume finite objective values
     return [C03Checker(sc), C04Checker(sc), C07Checker(sc), C08Checker(sc)]
 
 
@@ -106,17 +110,22 @@ def check_case(case) -> tuple[list[Violation], dict]:
         info["nontrivial"] = bool(inside and steps >= 1 and any(d.is_active for lvl in tree.levels[1:] for d in lvl))
         info["labels"].append("snapshot_inside_run" if inside else "snapshot_at_end")
         path = os.path.join(tmp, "snap.pkl")
-        d0, s0, r0, c0 = tree_digest(tree), summary_fingerprint(tree), _rng_state(), len(live.trace.calls)
+        nan_obj = sc["objective"]["family"] == "nanhole"  # (ties between NaN values are broken by coin flips: summaries are not comparable)
+        fp = (lambda t: "") if nan_obj else summary_fingerprint
+        d0, s0, c0 = tree_digest(tree), fp(tree), len(live.trace.calls)
         verdict0 = bool(live.inner_gsc(tree))
+        r0 = _rng_state()  # taken last: nothing but the dump itself happens between r0 and r1
         try:
             tree.pickle_dump(path)
         except Exception as e:  # noqa: BLE001
             fail("dump-raised/" + type(e).__name__, f"pickle_dump raised at metaepoch {tree.metaepoch_count}: {e!r}"[:600])
             return vs, info
-        if tree_digest(tree) != d0 or summary_fingerprint(tree) != s0:
+        r1 = _rng_state()
+        if r1 != r0:
+            fail("dump-consumed-randomness", "pickle_dump changed the state of a global random generator" + (" (objective with NaN values)" if nan_obj else ""))
+        if tree_digest(tree) != d0 or fp(tree) != s0:
             fail("dump-changed-live-tree", f"pickle_dump at metaepoch {tree.metaepoch_count} changed the live tree")
-        if _rng_state() != r0:
-            fail("dump-consumed-randomness", "pickle_dump changed the state of a global random generator")
+        r0 = _rng_state()
         if len(live.trace.calls) != c0:
             fail("dump-evaluated", "pickle_dump invoked the objective")
         try:
@@ -128,7 +137,7 @@ def check_case(case) -> tuple[list[Violation], dict]:
             fail("load-consumed-randomness", "pickle_load changed the state of a global random generator")
         if tree_digest(loaded) != d0:
             fail("loaded-tree-differs", f"snapshot at metaepoch {tree.metaepoch_count}: the loaded tree differs from the original: " + tree_diff(tree, loaded))
-        elif summary_fingerprint(loaded) != s0:
+        elif fp(loaded) != s0:
             fail("loaded-summary-differs", "the loaded tree's summary() differs from the original's")
         try:
             v1 = bool(loaded._gsc.inner(loaded))
@@ -153,7 +162,9 @@ def check_case(case) -> tuple[list[Violation], dict]:
         np.random.set_state(np_state)
         random.setstate(py_state)
         mon = _monitors(sc)
-        mon[2].adopt(loaded)
+        for m in mon:
+            if hasattr(m, "adopt"):
+                m.adopt(loaded)
         shell = _attach(sc, loaded, mon)
         shell.inner_gsc = loaded._gsc.inner
         crashed = None
@@ -179,9 +190,52 @@ def check_case(case) -> tuple[list[Violation], dict]:
     return vs, info
 
 
+class AsC19(Checker):
+    """the C03/C04/C07/C08 monitors attached to a run that continues on restored trees; what they report is a C19 matter"""
+
+    prop = PROP
+
+    def __init__(self, sc):
+        super().__init__()
+        self.inner = _monitors(sc)
+
+    def on_start(self, run):
+        [c.on_start(run) for c in self.inner]
+
+    def on_gsc(self, run, e):
+        [c.on_gsc(run, e) for c in self.inner]
+
+    def on_round(self, run, rnd):
+        [c.on_round(run, rnd) for c in self.inner]
+
+    def on_filter(self, run, e):
+        [c.on_filter(run, e) for c in self.inner]
+
+    def on_boundary(self, run, k):
+        [c.on_boundary(run, k) for c in self.inner]
+
+    def on_end(self, run):
+        [c.on_end(run) for c in self.inner]
+
+    @property
+    def violations(self):
+        return [Violation(PROP, "C19/continued-run/" + v.signature, "while running on across dump/load cycles: " + v.detail) for c in self.inner for v in c.violations]
+
+    @violations.setter
+    def violations(self, value):
+        pass
+
+
+def _judge_machine(run):
+    t = run.tree
+    return [], bool(t is not None and t.metaepoch_count >= 2 and sum(len(l) for l in t.levels[1:]) >= 1)
+
+
 @st.composite
 def cases(draw):
-    sc = draw(scenarios({"cap": (5, 9)}))
+    from ..scenario import Objective
+
+    sc = draw(scenarios({"cap": (5, 9), "families": Objective.FAMILIES + ["nanhole"]}))
     sc["objective_style"] = draw(st.sampled_from(["object", "lambda", "closure"]))
     return {"scenario": sc, "k": draw(st.integers(0, 9))}
 
@@ -203,8 +257,27 @@ def run_shard(tier, seed, shard, nshards, tally: Tally, scale=1.0):
         tally.add_case(case, info["nontrivial"], sample=sample)
         return vs
 
-    return hyp_drive(PROP, cases(), body, tally=tally, max_examples=n, seed=shard_seed(seed, shard), kind="snapshot")
+    fs = hyp_drive(PROP, cases(), body, tally=tally, max_examples=n, seed=shard_seed(seed, shard), kind="snapshot")
+    # machine tier: histories with several dump/load cycles, the run always continuing on the LOADED tree
+    from ..driver import machine_drive
+    from ..machine import make_tree_machine
+
+    nm = max(2, int({"quick": 240, "thorough": 6000}[tier] * scale / nshards))
+    fs += machine_drive(
+        PROP,
+        lambda coll, tl: make_tree_machine(PROP, lambda sc: [AsC19(sc)], _judge_machine, coll, tl, roundtrip_checks=True, allow_look=True),
+        tally=tally,
+        max_examples=nm,
+        steps={"quick": 12, "thorough": 30}[tier],
+        seed=shard_seed(seed, shard, 11),
+        kind="machine",
+    )
+    return fs
 
 
 def replay(case, kind=""):
+    if kind == "machine" or "ops" in case:
+        from ..machine import replay_machine
+
+        return replay_machine(case, PROP, lambda sc: [AsC19(sc)], roundtrip_checks=True)
     return check_case(case)[0]
